@@ -494,7 +494,12 @@ def gen_c07(r, knobs=None):
             names = b.names(cid)
             if t < 0.2:
                 n = r.choice(names)
-                b.op(op='tforce', cid=cid, task=n, name=n, delete=r.random() < 0.4 and b.delete_ok(cid, [n], live))
+                dele = r.random() < 0.4 and b.delete_ok(cid, [n], live)
+                if dele and faulty and r.random() < 0.5:
+                    # a file-system error while the stored result is removed: force has to report it (or have removed everything)
+                    b.op(op='tforce', cid=cid, task=n, name=n, delete=True, diskerr={'k': r.randint(0, 4), 'errno': r.choice(['EIO', 'EACCES', 'EBUSY'])})
+                else:
+                    b.op(op='tforce', cid=cid, task=n, name=n, delete=dele)
             elif t < 0.45:
                 ns = b.pick_force_names(cid)
                 if len(ns) >= 2 and r.random() < 0.4:
